@@ -75,6 +75,9 @@ ObjAttr(oname, attr) ==
     IF oname = "math" THEN (IF attr \in MathFns THEN [k |-> "fn", name |-> attr] ELSE Err("AttributeError"))
     ELSE IF oname = "o1" /\ attr = "p" THEN IntV(5)
     ELSE IF oname = "o1" /\ attr = "q" THEN FracV(1, 2)
+    \* attributes named like pymbolic's own instance attributes
+    ELSE IF oname = "o1" /\ attr = "aggregate" THEN IntV(7)
+    ELSE IF oname = "o1" /\ attr = "name" THEN IntV(3)
     ELSE IF oname = "o2" /\ attr = "p" THEN IntV(-2)
     ELSE Err("AttributeError")
 
